@@ -14,7 +14,12 @@ CONFIG = {'assumptions': [
     'a null d_ptr denotes an absent table (no table lives at virtual address 0)',
     'strings are compared as UTF-8 bytes; generated names are valid UTF-8',
     'the stripped image also has e_shstrndx = 0 (SHN_UNDEF), as the gABI prescribes for a file without section names',
-    'objects are fresh: Dynamic.get_tag(n) is asked only for n < num_tags() (history dependence past the terminator is C10)']}
+    'objects are fresh: Dynamic.get_tag(n) is asked only for n < num_tags() (history dependence past the terminator is C10)',
+    'the stream kind (BytesIO, buffered files, mmap, gzip, decoy descriptor) is a dimension of the correspondence only: every kind '
+    'presents the same bytes, the theorems quantify over the byte list',
+    'a DynamicTag is an answer already given: its string attributes are read after the stream has been closed',
+    'the image with a hash table of more than 2**20 buckets is compared with the conclusion of the count theorems (its table is '
+    'certified by the extracted sysv_valid / gnu_valid); the model is not run on it']}
 LEVEL = {'text': 'Machine-checked theorems over unbounded inputs (Props/C09.v, no axioms): for EVERY e_machine/EI_OSABI the d_tag '
                  'dict the code builds is the platform\'s standard tag set and names every interpreted tag by its gABI number only '
                  '(C09_dtab_selection, C09_dtab_names, C09_handled_tags, C09_open_tables); the tag iterator yields exactly the entries up '
@@ -373,7 +378,7 @@ def gen(ctx):
     from tools.lib.streams import draw_kind
     rng = ctx.rng
     cases = []
-    n = ctx.scale(260, 4000)
+    n = ctx.scale(230, 4000)
     for i in range(n):
         a = _gen_image(ctx, rng, malformed=(i % 8 == 7))
         a.append(['hist', _gen_history(rng, [e[0] for e in _d(a)['entries'] if isinstance(e[0], int)])])
@@ -582,6 +587,9 @@ def _plan(a):
             if e[0] == DT['STRTAB'] and e[1] == addr['strtab'] % 2 ** (8 * w):
                 e[1] = addr['strtab2'] % 2 ** (8 * w)
     P.ents, P.extras, P.extras2, P.ents2 = ents, extras, extras2, ents2
+    # the generator's expectation takes the FIRST DT_STRTAB for the real table (a random second one may precede it)
+    first5 = [e[1] for e in ents if e[0] == DT['STRTAB']]
+    P.first_strtab_real = bool(first5) and first5[0] == addr['strtab'] % 2 ** (8 * w)
     # program headers
     phs = []
     for g in range(nload):
@@ -1440,7 +1448,8 @@ def _evaluate_main(ctx, cases, S):
                 # predicate seg_consistent_b (original and stripped), the section view's is the generator's
                 st2 = next(ans)
                 sec_core, _ = _expected(P, st2, wk['names'], ents=P.ents2, strkey='strtab2')
-                in_core = bool(wf[2]) and bool(wf2[2]) and bool(so) and not wk['unfit'] and P.A['mut'] is None
+                in_core = (bool(wf[2]) and bool(wf2[2]) and bool(so) and not wk['unfit'] and P.A['mut'] is None
+                           and P.first_strtab_real)
                 in_sym = False
                 if sec_core[0] is None:
                     in_core = False
